@@ -396,6 +396,13 @@ def _registry():
         sc.Sphere(n=U(1.4, 1.6), r=r, center=[U(0.0, 1.0), 0.0, z]),
         sc.Sphere(n=U(1.4, 1.6), r=r, center=[U(0.0, 1.0), 3.0, z])]))(
             U(0.25, 0.75), U(5.0, 10.0)))
+    # more than ten free parameters (two-digit placeholders in the maps)
+    reg("M:spheres-wide", lambda: sc.Spheres([
+        sc.Sphere(n=U(1.4 + 0.01 * i, 1.6 + 0.01 * i),
+                  r=U(0.25, 0.75 + 0.01 * i),
+                  center=[U(0.0 + i, 1.0 + i), U(-1.0, 0.5 * i + 1.0),
+                          U(5.0, 10.0 + i)])
+        for i in range(3)]))
     reg("M:spheroid", lambda: sc.Spheroid(
         n=U(1.4, 1.6), r=[U(0.25, 0.75), U(0.25, 0.75)],
         rotation=[0.0, U(0.0, 1.5), 0.0], center=[1.0, 2.0, U(5.0, 10.0)]))
@@ -641,7 +648,8 @@ _OPTICS = {
                "T:Lens-Mie", "T:Multisphere"],
     "constraints": [OMIT, "C:empty", "C:limit", "C:limit-list", "C:two"],
 }
-_MSCAT = ["M:sphere", "M:sphere-fixed", "M:sphere-cplx", "M:sphere-derived",
+_MSCAT = ["M:sphere", "M:spheres-wide", "M:sphere-fixed", "M:sphere-cplx",
+          "M:sphere-derived",
           "M:sphere-named", "M:sphere-tuple", "M:layered", "M:spheres",
           "M:spheres-shared", "M:spheroid"]
 TABLE["AlphaModel"] = dict(
